@@ -1631,10 +1631,18 @@ def fault_plan(fired):
     return {'abort': 'end' if fired.get('root_returned') else 'start'}
 
 
-def c14_jobs(tier, ds, per_family=(12, 300), n_random=(150, 6000), salt=14):
-    """cases with one injected OSError at the k-th mutating library call of one committed build"""
+def c14_base(tier, ds, per_family=(12, 300), n_random=(150, 6000), salt=14):
     base = gen.gen_scenario_cases(core.seed() * 31 + salt, budget(tier, *per_family), ds, gen.SCENARIOS + [gen.scen_longname])
     base += random_cases(tier, n_random[0], n_random[1], salt, dirsize=ds, p_fail=0.0, p_clean=0.0, min_builds=2, max_builds=4)
+    return base
+
+
+def c14_jobs(tier, ds, per_family=(12, 300), n_random=(150, 6000), salt=14):
+    """cases with one injected OSError at the k-th mutating library call of one committed build"""
+    return c14_jobs_for(tier, c14_base(tier, ds, per_family, n_random, salt), random.Random(core.seed() * 101 + 14))
+
+
+def c14_jobs_for(tier, base, rng):
     probe = []
     for c in base:
         c = json.loads(json.dumps(c))
@@ -1643,7 +1651,6 @@ def c14_jobs(tier, ds, per_family=(12, 300), n_random=(150, 6000), salt=14):
                 st.append({'count_faults': True})
         probe.append(c)
     dry = core.pmap(hist.real_worker, probe)
-    rng = random.Random(core.seed() * 101 + 14)
     jobs = []
     for c, r in zip(base, dry):
         if 'harness_error' in r:
@@ -1689,21 +1696,32 @@ def check_C14(tier):
     rep = core.Report('C14', tier)
     gate = core.proof_gate(THEOREMS['C14'], tier)
     ds = measure()
-    jobs = c14_jobs(tier, ds)
-    reals = core.pmap(hist.real_worker, jobs)
-    ops = {}
-    for j, r in zip(jobs, reals):
-        if 'harness_error' in r:
-            raise core.HarnessError(r['harness_error'])
-        f = r['steps'][j['fault_step']].get('fault', {}).get('fired')
-        if f is None:
-            raise core.HarnessError('injected fault did not fire: %s' % j['seed'])
-        ops[f['op']] = ops.get(f['op'], 0) + 1
-        rep.count('in_call:' + f['in_call'][0])
-        j['steps'][j['fault_step']][5].update(fault_plan(f))
-    specs = model.run_cases(jobs)
-    explore('C14', tier, rep, jobs, precomputed=list(zip(jobs, reals, specs)))
-    rep.coverage['faulted_operations'] = ops
+    # the base cases in slices: every fault position of every build of a slice is run, judged and dropped before the next
+    # slice (all of the thorough tier at once is some 10^5 faulted histories with their trees: tens of GB)
+    base = c14_base(tier, ds, per_family=(12, 150), n_random=(150, 3000))
+    rng = random.Random(core.seed() * 101 + 14)
+    ops, totals, stats = {}, {'programs': 0, 'failing_cases': 0, 'traces_validated_against_impl': 0}, {}
+    for lo in range(0, len(base), 700):
+        jobs = c14_jobs_for(tier, base[lo:lo + 700], rng)
+        reals = core.pmap(hist.real_worker, jobs)
+        for j, r in zip(jobs, reals):
+            if 'harness_error' in r:
+                raise core.HarnessError(r['harness_error'])
+            f = r['steps'][j['fault_step']].get('fault', {}).get('fired')
+            if f is None:
+                raise core.HarnessError('injected fault did not fire: %s' % j['seed'])
+            ops[f['op']] = ops.get(f['op'], 0) + 1
+            rep.count('in_call:' + f['in_call'][0])
+            j['steps'][j['fault_step']][5].update(fault_plan(f))
+        specs = model.run_cases(jobs)
+        explore('C14', tier, rep, jobs, precomputed=list(zip(jobs, reals, specs)))
+        for k in totals:
+            totals[k] += rep.coverage.get(k, 0)
+        for k, v in (rep.coverage.get('history_stats') or {}).items():
+            stats[k] = stats.get(k, 0) + v
+        del jobs, reals, specs
+    rep.coverage.update(totals)
+    rep.coverage.update({'disagreements_checked': totals['programs'], 'history_stats': stats, 'faulted_operations': ops})
     # _make_room on its own with the fault at EVERY one of its mutating calls (FB.MakeRoomF: makeRoomF_moved,
     # makeRoomF_no_file_lost, makeRoomF_raw, makeRoomF_none): oracle on the real side, tie with the model
     from . import mrcheck
